@@ -5,5 +5,6 @@
 pub mod cfgs;
 pub mod fmt;
 pub mod fronts;
+pub mod guard;
 
 pub use fmt::Fmt;
